@@ -180,6 +180,14 @@ func (g *gen) doc(ind string, allowMultiBlock bool) docResult {
 			if g.r.Intn(2) == 0 || (shape == 6) {
 				k := fmt.Sprintf("k%d", g.r.Intn(3))
 				v := g.mark()
+				switch g.r.Intn(8) {
+				case 0:
+					v = `"` + v + `"` // a quoted value stays quoted
+				case 1:
+					v = "`" + v + `\t` + "`"
+				case 2:
+					v = `'x'`
+				}
 				marker := "+"
 				if g.r.Intn(3) == 0 {
 					marker = "@"
@@ -844,7 +852,10 @@ func refExtract(lines []string, markers []byte) (map[string][]string, []string) 
 var tagAtoms = []string{
 	// non-ASCII first characters whose code point ENDS in the byte of a marker (U+0440, U+042B, U+592B: low byte 0x40 /
 	// 0x2B; U+0123: low byte '#') - they are ordinary text, never markers; a marker followed by non-ASCII text
-	"р", "Ы", "夫", "ģ", "размер", "夫妻", "+р", "@夫", "＋", "＠","+", "@", "#", "=", " ", "  ", "k", "key", "gengo:deepcopy", "gengo:x:y", "v", "a=b", "é", "\t", "false", "+k=v", "@k v", "+k", "-", "x y z"}
+	"р", "Ы", "夫", "ģ", "размер", "夫妻", "+р", "@夫", "＋", "＠","+", "@", "#", "=", " ", "  ", "k", "key", "gengo:deepcopy", "gengo:x:y", "v", "a=b", "é", "\t", "false", "+k=v", "@k v", "+k", "-", "x y z",
+	// values that are valid Go string / rune literals as a whole: the value is everything after the separator, verbatim -
+	// quotes included, escapes not decoded (seeded change C12-m: strconv.Unquote on the value)
+	"+q=\"v\"", "+q=\"a\\tb\"", "@pat `^[a-z]+$`", "+sep=\",\"", "@d 'x'", "\"", "'", "`", "\"x\"", "\\t", "\\n"}
 
 func (p *prop) runTags(c core.Case, res *core.Result) {
 	var pa params
